@@ -25,27 +25,28 @@ func init() { register(&Check{ID: "C15", Run: runC15}) }
 
 type c15Case struct {
 	core.CaseRef
-	SQL      string            `json:"sql"`
-	Family   string            `json:"family"` // greedy | lazy
-	Skip     string            `json:"skip"`
-	SkipSym  string            `json:"skip_symbol,omitempty"`
-	RowsPer  string            `json:"rows_per_match"`
-	Pattern  string            `json:"pattern"`
-	Defines  map[string]string `json:"define"`
-	Within   int64             `json:"within"` // -1 none (engine default 1 h on ordinal timestamps), else same unit as ts
-	NParts   int               `json:"partitions"`
-	PartBy   bool              `json:"partition_by"`
-	Feed     string            `json:"interleaving"`
-	Rows     []Row             `json:"rows"`
-	spec     *c15Spec
-	parts    []string
-	partRows map[string][]Row
-	valid    map[string][]map[string]bool // partition -> start -> set of valid labellings
-	reach    map[string][]int             // partition -> start -> furthest position of a valid partial labelling
-	shape    string
-	defKinds string
-	tries    int
-	runBound float64 // upper bound on the engine's simultaneous partial matches per partition (guard: 10000)
+	SQL        string            `json:"sql"`
+	Family     string            `json:"family"` // greedy | lazy
+	Skip       string            `json:"skip"`
+	SkipSym    string            `json:"skip_symbol,omitempty"`
+	RowsPer    string            `json:"rows_per_match"`
+	Pattern    string            `json:"pattern"`
+	Defines    map[string]string `json:"define"`
+	Within     int64             `json:"within"`                      // -1 none (engine default 1 h on ordinal timestamps), else same unit as ts
+	FracWithin bool              `json:"fractional_within,omitempty"` // timestamps on a 500 ns grid, WITHIN written as n.5 US
+	NParts     int               `json:"partitions"`
+	PartBy     bool              `json:"partition_by"`
+	Feed       string            `json:"interleaving"`
+	Rows       []Row             `json:"rows"`
+	spec       *c15Spec
+	parts      []string
+	partRows   map[string][]Row
+	valid      map[string][]map[string]bool // partition -> start -> set of valid labellings
+	reach      map[string][]int             // partition -> start -> furthest position of a valid partial labelling
+	shape      string
+	defKinds   string
+	tries      int
+	runBound   float64 // upper bound on the engine's simultaneous partial matches per partition (guard: 10000)
 }
 
 // ---- generator -----------------------------------------------------------------------------------
@@ -382,6 +383,17 @@ func c15GenOnce(ref core.CaseRef, r *rand.Rand) *c15Case {
 		c.partRows[c.parts[pi]] = append(c.partRows[c.parts[pi]], row)
 	}
 
+	if c.Within >= 0 && r.Intn(3) == 0 {
+		// the same case on a 500 ns grid, so that WITHIN can be written as a fractional number of microseconds
+		// (1.5 US = 1500 ns = three steps)
+		c.FracWithin = true
+		for _, row := range c.Rows {
+			row["ts"] = row["ts"].(int) * 500
+		}
+		c.Within *= 500
+		spec.Within = c.Within
+	}
+
 	// SQL
 	var sb strings.Builder
 	sb.WriteString("SELECT * FROM stream MATCH_RECOGNIZE (")
@@ -415,7 +427,9 @@ func c15GenOnce(ref core.CaseRef, r *rand.Rand) *c15Case {
 		sb.WriteString("AFTER MATCH SKIP TO " + c.SkipSym + " ")
 	}
 	sb.WriteString("PATTERN (" + c.Pattern + ")")
-	if c.Within >= 0 {
+	if c.Within >= 0 && c.FracWithin {
+		fmt.Fprintf(&sb, " WITHIN %g US", float64(c.Within)/1000)
+	} else if c.Within >= 0 {
 		if r.Intn(2) == 0 {
 			fmt.Fprintf(&sb, " WITHIN %d NS", c.Within)
 		} else {
